@@ -67,7 +67,20 @@ def run(ctx):
     first = ("call", "cozy_chess_types::bitboard::BitBoard::next_square", (T,))
     S = zob.payload(first)
     removed = [("xor", T, ("bbof", S)), ("and", T, ("not", ("bbof", S)))]
+    # next() as a function of (destination left?, pawn?, lowest destination on rank 1|8?, counter): every path is read
+    # off for each counter value 0..=3 it applies to -- its decisions about the counter and the values it produces are
+    # evaluated, not matched -- and compared with the enumeration's transition table:
+    #   nothing left            -> None, state untouched
+    #   not a promotion (k = 0) -> (from, S, None), S removed, counter stays 0
+    #   promotion, counter k    -> (from, S, Some([N, B, R, Q][k])), counter' = (k + 1) mod 4, S removed exactly when k = 3
+    # (k != 0 without a promotion does not occur: the table itself shows that the counter leaves 0 only on a promotion
+    # step that keeps the destination set, so the lowest destination is still that promotion square)
+    from .. import conc
+    from ..conc import Stuck
+    RANKC = ("call", "cozy_chess_types::square::Square::rank", (S,))
+    NVAR = {PIECE: 6}
     produced = {}
+    covered = set()
     n_none = n_plain = n_promo = 0
     for p in paths:
         conds = list(p.conds)
@@ -88,45 +101,48 @@ def run(ctx):
         if BATCH in ch:
             mv = ch[BATCH]
             newT = sym.Ops(f).field(mv, "to")
-            rest = mv
-            # only `to` may change inside moves
             okm = mv[0] == "with" and mv[1] == fld(BATCH) and mv[2] == ("f", "to")
             ctx.check(okm, "next:only-to-changes", "next() changes batch fields other than the destination set", where)
         newC = ch.get(CNT, C)
-        # facts decided on this path
         some = None
-        pawn = None
-        rank = None
-        k = None
+        promosq = None
+        cconds = []
         for c in conds:
             e, val = c[0], c[1]
             if e[0] == "bin" and e[1] == "Eq" and e[2] == ("discr", first) and e[3] == ("int", 0, "isize") and isinstance(val, int):
                 some = not bool(val)
             elif e == ("discr", first):
                 some = (val == 1) if isinstance(val, int) else (False if 1 in val[1] else None)
-            elif e[0] == "bin" and e[1] in ("Eq", "Ne") and set((e[2], e[3])) == {PAWN, P} and isinstance(val, int):
-                pawn = (e[1] == "Eq") == bool(val)
-            elif e[0] == "discr" and e[1] == ("call", "cozy_chess_types::square::Square::rank", (S,)):
-                if isinstance(val, int):
-                    rank = val in (0, 7) if val in (0, 7) else False
-                    if val not in range(8):
-                        rank = None
-                else:
-                    rank = False if set(val[1]) >= {0, 7} else None
-            elif e == C:
-                k = val if isinstance(val, int) else ("not", tuple(val[1]))
-            elif e[0] == "bin" and e[2] == C:
+            elif e[0] == "bin" and e[1] in ("Eq", "Ne") and set((e[2], e[3])) == {PAWN, P}:
                 pass
-            elif e[0] == "bin" and e[1] in ("Eq", "Ne") and ("call", "cozy_chess_types::square::Square::rank", (S,)) in (e[2], e[3]):
-                pass        # `rank == Rank::First || rank == Rank::Eighth`: read through the possible-value set below
+            elif e == ("discr", P):
+                pass
+            elif e == ("discr", RANKC) or (e[0] == "bin" and e[1] in ("Eq", "Ne") and RANKC in (e[2], e[3])):
+                pass
+            elif e[0] == "has" and e[2] == S and e[1] == ("bbconst", M) and isinstance(val, int):
+                promosq = bool(val)         # the same test through the mask of the two back ranks
+            elif sym.contains(e, lambda y: y == C):
+                cconds.append(c)
             else:
                 ctx.fail("next:unknown-decision", "next() branches on an unexpected condition: %s" % sym.show(e)[:160], where)
-        if p.end == "diverge" or p.end == "panic":
-            from ..ranges import Ranger
-            bd_ = Ranger(f, {C: CNT_TY}).bounds(C, p.conds)
-            outside = (isinstance(k, tuple) and set(k[1]) >= {0, 1, 2, 3}) or (bd_ is not None and (bd_[0] >= 4 or bd_[0] > bd_[1]))
-            ctx.check(outside, "next:panic-only-outside-invariant",
-                      "next() can panic with the promotion counter inside 0..=3", where)
+        lc_ = [(c_[0], c_[1]) for c_ in conds]
+        pv_ = enum_values(f, lc_, P, PIECE)
+        pawn = in_set3(pv_, {0}) if len(pv_) < 6 else None
+        if promosq is None:
+            rv_ = enum_values(f, lc_, RANKC, "cozy_chess_types::rank::Rank")
+            promosq = in_set3(rv_, {0, 7}) if len(rv_) < 8 else None
+
+        def applies(k_):
+            try:
+                return all(conc.Conc({C: k_}, NVAR).cond_holds(c_) for c_ in cconds)
+            except Stuck:
+                return None
+        ks = [k_ for k_ in range(4) if applies(k_)]
+        if any(applies(k_) is None for k_ in range(4)):
+            ctx.fail("next:counter-decision", "next() decides something about the counter that cannot be evaluated: %s" % [sym.show(c_[0])[:80] for c_ in cconds], where)
+            continue
+        if p.end in ("diverge", "panic"):
+            ctx.check(not ks, "next:panic-only-outside-invariant", "next() can panic with the promotion counter inside 0..=3", where)
             continue
         if p.end != "return":
             ctx.fail("next:path-end", "next() has a path ending in %s" % p.end, where)
@@ -148,44 +164,51 @@ def run(ctx):
         if not okmv:
             continue
         promo = dict(mvv[4]).get("promotion")
-        if rank is None:
-            rv_ = enum_values(f, [(c_[0], c_[1]) for c_ in conds], ("call", "cozy_chess_types::square::Square::rank", (S,)), "cozy_chess_types::rank::Rank")
-            rank = in_set3(rv_, {0, 7}) if len(rv_) < 8 else None
-        if pawn is None:
-            pv_ = enum_values(f, [(c_[0], c_[1]) for c_ in conds], P, PIECE)
-            pawn = in_set3(pv_, {0}) if len(pv_) < 6 else None
-        promoting = and3(pawn, rank)
+        promoting = and3(pawn, promosq)
         if promoting is None:
             ctx.fail("next:promotion-undecided", "next() yields a move without deciding whether it is a promotion (pawn and 1st/8th rank)", where)
             continue
-        if not promoting:
-            n_plain += 1
-            ok = promo[0] == "agg" and promo[2] == "None" and any(setalg.equivalent(newT, x) for x in removed) and newC == C
-            ctx.check(ok, "next:plain-move", "a non-promotion is not yielded as (from, S, None) with S removed and the counter untouched: promotion=%s to'=%s counter'=%s"
-                      % (sym.show(promo)[:40], sym.show(newT)[:80], sym.show(newC)[:40]), where,
-                      sample={"case": "plain", "yield": "(from, S, None)", "to'": "to ^ bb(S)"} if n_plain == 1 else None)
-        else:
-            n_promo += 1
-            if not (isinstance(k, int) and 0 <= k <= 3):
-                ctx.fail("next:counter-undecided", "a promotion is yielded without the counter being one of 0..=3 (%s)" % (k,), where)
+        kept = newT == T
+        gone = any(setalg.equivalent(newT, x) for x in removed)
+        for k in ks:
+            try:
+                nc = conc.Conc({C: k}, NVAR).ev(newC)
+            except Stuck as e_:
+                ctx.fail("next:counter-value", "the new counter value cannot be evaluated: %s" % str(e_)[:80], where)
                 continue
-            okp = promo[0] == "agg" and promo[2] == "Some" and dict(promo[4])["0"][0] == "enum"
-            if not ctx.check(okp, "next:promotion-piece", "a promotion does not carry a constant piece", where):
-                continue
-            produced.setdefault(k, set()).add(dict(promo[4])["0"][2])
-            if k < 3:
-                ok = newT == T and newC in (("bin", "Add", C, ("int", 1, "u8")), ("int", k + 1, "u8"))
-                ctx.check(ok, "next:promotion-step", "counter %d: expected counter+1 and the destination kept; got counter'=%s to'=%s" % (k, sym.show(newC)[:40], sym.show(newT)[:60]), where)
+            if not promoting:
+                if k != 0:
+                    continue            # does not occur (see above)
+                n_plain += 1
+                covered.add(("plain", 0))
+                ok = promo[0] == "agg" and promo[2] == "None" and gone and nc == 0
+                ctx.check(ok, "next:plain-move", "a non-promotion is not yielded as (from, S, None) with S removed and the counter left at 0: promotion=%s to'=%s counter'=%s"
+                          % (sym.show(promo)[:40], sym.show(newT)[:80], nc), where,
+                          sample={"case": "plain", "yield": "(from, S, None)", "to'": "to ^ bb(S)"} if n_plain == 1 else None)
             else:
-                ok = newC == ("int", 0, "u8") and any(setalg.equivalent(newT, x) for x in removed)
-                ctx.check(ok, "next:promotion-wrap", "counter 3: expected counter reset to 0 and S removed; got counter'=%s to'=%s" % (sym.show(newC)[:40], sym.show(newT)[:60]), where,
-                          sample={"case": "promotion", "k": 3, "yield": "Queen", "then": "counter=0, to ^= bb(S)"})
+                n_promo += 1
+                covered.add(("promo", k))
+                pc = None
+                if promo[0] == "agg" and promo[2] == "Some":
+                    try:
+                        pc = conc.Conc({C: k}, NVAR).ev(dict(promo[4])["0"])
+                    except Stuck:
+                        pc = None
+                if not ctx.check(isinstance(pc, int) and 0 <= pc < 6, "next:promotion-piece", "a promotion does not carry a piece that is a function of the counter", where):
+                    continue
+                produced.setdefault(k, set()).add(PIECES[pc])
+                if k < 3:
+                    ok = kept and nc == k + 1
+                    ctx.check(ok, "next:promotion-step", "counter %d: expected counter+1 and the destination kept; got counter'=%s to'=%s" % (k, nc, sym.show(newT)[:60]), where)
+                else:
+                    ok = nc == 0 and gone
+                    ctx.check(ok, "next:promotion-wrap", "counter 3: expected counter reset to 0 and S removed; got counter'=%s to'=%s" % (nc, sym.show(newT)[:60]), where,
+                              sample={"case": "promotion", "k": 3, "yield": "Queen", "then": "counter=0, to ^= bb(S)"})
     ctx.floor("next: None paths", n_none, 1)
-    ctx.floor("next: plain paths", n_plain, 2)
-    ctx.floor("next: promotion paths", n_promo, 8)
-    ok = set(produced) == {0, 1, 2, 3} and all(len(v) == 1 for v in produced.values()) and \
-        {next(iter(v)) for v in produced.values()} == {"Knight", "Bishop", "Rook", "Queen"}
-    ctx.check(ok, "next:produced-set", "promotion counter values do not map bijectively onto {Knight, Bishop, Rook, Queen}: %s" % produced, where,
+    ctx.check(covered == {("plain", 0)} | {("promo", k_) for k_ in range(4)}, "next:cases",
+              "next() does not cover the plain case and the four promotion steps: %s" % sorted(covered), where)
+    ok = set(produced) == {0, 1, 2, 3} and [sorted(produced[k_]) for k_ in range(4)] == [["Knight"], ["Bishop"], ["Rook"], ["Queen"]]
+    ctx.check(ok, "next:produced-set", "promotion counter values 0..=3 do not yield Knight, Bishop, Rook, Queen in this order: %s" % produced, where,
               sample={"counter->piece": {k: sorted(v) for k, v in produced.items()}})
     n_pieces = len({x for v in produced.values() for x in v})
 
@@ -277,22 +300,32 @@ def run(ctx):
     eb = f.need(PM + "PieceMoves::is_empty")
     eps = sym.SymExec(f, eb).run()
     ctx.check(len(eps) == 1 and eps[0].ret == ("isempty", To), "is_empty", "is_empty() is not `to is empty`: %s" % sym.show(eps[0].ret)[:80], loc(eb))
-    xb = f.need("<" + PM + "PieceMovesIter as core::iter::traits::exact_size::ExactSizeIterator>::len")
-    xps = sym.SymExec(f, xb, inline=lambda n: False if n == PM + "PieceMoves::len" else None).run()
-    okx = len(xps) == 1
-    if okx:
-        r = xps[0].ret
-        okx = r[0] == "bin" and r[1] == "Sub" and r[2][0] == "call" and r[2][1] == PM + "PieceMoves::len" and r[3] == ("cast", "usize", C)
-    ctx.check(okx, "remaining-len", "remaining length is not batch.len() - promotion counter: %s" % (sym.show(xps[0].ret)[:120] if xps else None), loc(xb),
-              sample={"remaining": "moves.len() - promotion"})
+    # remaining length: batch.len() - promotion counter, reported by size_hint as (n, Some(n)); ExactSizeIterator::len is
+    # either written out as that number (and size_hint defers to it) or left to its provided default, which returns
+    # size_hint's exact bound
+    def is_remaining(r_):
+        return r_[0] == "bin" and r_[1] == "Sub" and r_[2][0] == "call" and r_[2][1] == PM + "PieceMoves::len" and r_[3] == ("cast", "usize", C)
+    XLEN = "<" + PM + "PieceMovesIter as core::iter::traits::exact_size::ExactSizeIterator>::len"
+    xb = f.bodies.get(XLEN)
+    own_len = False
+    if xb is not None:
+        xps = sym.SymExec(f, xb, inline=lambda n: False if n == PM + "PieceMoves::len" else None).run()
+        own_len = len(xps) == 1 and is_remaining(xps[0].ret)
+        ctx.check(own_len, "remaining-len", "remaining length is not batch.len() - promotion counter: %s" % (sym.show(xps[0].ret)[:120] if xps else None), loc(xb),
+                  sample={"remaining": "moves.len() - promotion"})
     sb = f.need("<" + PM + "PieceMovesIter as core::iter::traits::iterator::Iterator>::size_hint")
-    sps = sym.SymExec(f, sb, inline=lambda n: False if n.endswith("ExactSizeIterator>::len") else None).run()
+    sps = sym.SymExec(f, sb, inline=lambda n: False if (n.endswith("ExactSizeIterator>::len") or n == PM + "PieceMoves::len") else None).run()
     oks = len(sps) == 1
     if oks:
         r = sps[0].ret
-        oks = r[0] == "tuple" and r[1][0][0] == "call" and r[1][0][1].endswith("ExactSizeIterator>::len") and r[1][1][0] == "agg" and \
-            r[1][1][2] == "Some" and dict(r[1][1][4])["0"][:2] == r[1][0][:2]
-    ctx.check(oks, "size_hint-exact", "size_hint is not (len, Some(len))", loc(sb))
+        oks = r[0] == "tuple" and len(r[1]) == 2 and r[1][1][0] == "agg" and r[1][1][2] == "Some" and dict(r[1][1][4])["0"] == r[1][0]
+        if oks:
+            lo_ = r[1][0]
+            via_len = lo_[0] == "call" and lo_[1].endswith("ExactSizeIterator>::len") and own_len
+            oks = via_len or is_remaining(lo_)
+            if is_remaining(lo_) and xb is None:
+                ctx.ok("remaining-len", {"remaining": "moves.len() - promotion (in size_hint; len() is the provided default)"})
+    ctx.check(oks, "size_hint-exact", "size_hint is not (n, Some(n)) with n the remaining length batch.len() - promotion counter", loc(sb))
 
     # ------------------------------------------------------------------ has
     ctx.rule("has")
@@ -314,6 +347,8 @@ def run(ctx):
         pol = 1
         while r_[0] == "un" and r_[1] == "Not":
             r_, pol = r_[2], 1 - pol
+        if r_ == ("has", ("bbconst", M), mto):
+            return r_, pol
         if r_[0] == "bin" and r_[1] in ("Eq", "Ne") and (set((r_[2], r_[3])) == {PAWN, Pc} or promo in (r_[2], r_[3]) or ("discr", promo) in (r_[2], r_[3])
                                                      or ("call", "cozy_chess_types::square::Square::rank", (mto,)) in (r_[2], r_[3])):
             return r_, pol
@@ -349,6 +384,8 @@ def run(ctx):
                 feq = (e[1] == "Eq") == bool(v)
             elif e == ("has", To, mto):
                 hto = bool(v)
+            elif e == ("has", ("bbconst", M), mto) and isinstance(v, int):
+                rank = bool(v)          # the back-rank test through the mask of the two ranks
             elif e[0] == "bin" and e[1] in ("Eq", "Ne") and ("call", "cozy_chess_types::square::Square::rank", (mto,)) in (e[2], e[3]):
                 pass        # read through the possible-value set below
             elif e[0] == "bin" and e[1] in ("Eq", "Ne") and (promo in (e[2], e[3]) or ("discr", promo) in (e[2], e[3]) or zob.payload(promo) in (e[2], e[3])
